@@ -87,10 +87,9 @@ async fn query_nameserver_udp_notimeout(
                 serialised_request,
             )
             .await?;
-        let mut buf = vec![0u8; 512];
-        let n = std::cmp::min(reply.len(), buf.len());
-        buf[..n].copy_from_slice(&reply[..n]);
-        return Message::from_octets(&buf).ok();
+        // as below: at most 512 octets are received, and only those are parsed
+        let len = std::cmp::min(reply.len(), 512);
+        return Message::from_octets(&reply[..len]).ok();
     }
 
     let mut buf = vec![0u8; 512];
